@@ -300,6 +300,8 @@ CONTENTS = {
     'qZ': json.dumps({"q": {"groups": {"g": Z}}}),
     'default+pY': json.dumps({"default": X, "p": Y, "public": Z}),
     'p_empty': json.dumps({"p": {}}),
+    # a valid definition of p with nothing in it (sections present but empty): p exists and denies all
+    'p_hollow': json.dumps({"p": {"groups": {}}}),
     'badjson': '{"p": ',
     'badperm': json.dumps({"p": {"SYMMETRIC_KEY": {"GET": "ALLOW_SOME"}}}),
     'empty': '{}',
